@@ -698,6 +698,7 @@ handshake_waitdns(int dns_fd, char *buf, int buflen, char c1, char c2, int timeo
 		q.id = 0;
 		q.name[0] = '\0';
 		rv = read_dns_withq(dns_fd, 0, buf, buflen, &q);
+		VERIF_TAIL(buf, rv, buflen);
 
 		if (q.id != chunkid || (q.name[0] != c1 && q.name[0] != c2)) {
 #if 0
@@ -822,6 +823,7 @@ tunnel_dns(int tun_fd, int dns_fd)
 
 	memset(q.name, 0, sizeof(q.name));
 	read = read_dns_withq(dns_fd, tun_fd, buf, sizeof(buf), &q);
+	VERIF_TAIL(buf, read, sizeof(buf));
 
 	if (conn != CONN_DNS_NULL)
 		return 1;  /* everything already done */
